@@ -93,6 +93,24 @@ def classes(ctx, dev, dev3, other):
         yield "drag>1", mag, solve(_opts=dict(screening_step_drag=1.0 + mag)), (SolverOptionsError,)
         yield "step_size<=0", mag, solve(_opts=dict(screening_step_size=-mag)), (SolverOptionsError,)
         yield "tolerance<=0", mag, solve(_opts=dict(screening_tolerance=-mag)), (SolverOptionsError,)
+    # options made inconsistent AFTER the solver object was built (one options object reused in a sweep): solve() itself
+    # must reject them before it creates any output
+    def late(**bad):
+        def b(out):
+            from tdgl.solver.solver import TDGLSolver
+
+            o = runs.options(output_file=out, solve_time=0.02)
+            sv = TDGLSolver(device=dev, options=o, terminal_currents={"source": 1.0, "drain": -1.0})
+            for k_, v_ in bad.items():
+                setattr(o, k_, v_)
+            return sv.solve()
+        return b
+
+    yield "late:dt_init>dt_max", "gross", late(dt_init=0.5, dt_max=0.1), (SolverOptionsError,)
+    yield "late:multiplier>=1", "gross", late(adaptive_time_step_multiplier=1.5), (SolverOptionsError,)
+    yield "late:terminal_psi>1", "gross", late(terminal_psi=2.0), (SolverOptionsError,)
+    yield "late:tolerance=0", "gross", late(screening_tolerance=0.0), (SolverOptionsError,)
+    yield "late:unknown-solver", "gross", late(sparse_solver="nosuchsolver"), (SolverOptionsError,)
     yield "unknown-terminal", "gross", solve(terminal_currents={"source": 1.0, "nosuch": -1.0}), (ValueError,)
     yield "multiplier<=0", "gross", solve(_opts=dict(adaptive_time_step_multiplier=0.0)), (SolverOptionsError,)
     yield "drag<=0", "gross", solve(_opts=dict(screening_step_drag=0.0)), (SolverOptionsError,)
